@@ -70,6 +70,7 @@ type c13Case struct {
 	NodeProps   map[string]m.Lit `json:"node_props"` // values of the reported node for placeholder properties (absent = null)
 	ProfileText string           `json:"profile_text"`
 	Route       int              `json:"route,omitempty"` // entry point producing the report (see validateVia)
+	Debug       bool             `json:"debug,omitempty"` // the entry points' debug flag
 	// Sibling, when set, names a second validation of the same level with the same message and body: a name that
 	// differs from the first only in letter case, punctuation or one character (names are text, not identifiers)
 	Sibling string `json:"sibling,omitempty"`
@@ -146,6 +147,7 @@ func genC13(t *rapid.T) c13Case {
 	}
 	c.ProfileText = c13Tree(c).Print(m.YOpts{Quote: 1})
 	c.Route = rapid.SampledFrom([]int{0, 0, 1, 2, 3}).Draw(t, "route")
+	c.Debug = rapid.IntRange(0, 2).Draw(t, "debug") == 0
 	return c
 }
 
@@ -216,7 +218,7 @@ func decideC13(c c13Case) ev.Verdict {
 	for p, l := range c.NodeProps {
 		g.Nodes[bad].AddVal(m.NS+p, m.LV(l))
 	}
-	res := validateVia(c.Route, c.ProfileText, g.JSONLD(m.LDOpts{}))
+	res := validateViaDebug(c.Route, c.Debug, c.ProfileText, g.JSONLD(m.LDOpts{}))
 	labels := []string{}
 	for _, x := range []struct {
 		pos string
